@@ -1,15 +1,85 @@
-from vf import Query
+from vf import Query, MPZ_BASE
 LEVEL = "model_checking"
+G = "mpn/generic/"
+
 def queries(ctx):
+    quick = ctx.tier == "quick"
     qs = []
-    K = 4 if ctx.tier == "quick" else 8
+    def add(name, h, units, defs, unwind, funcs, timeout=180, **kw):
+        qs.append(Query(name, h, units, defs, unwind=unwind, funcs=funcs, timeout=timeout, **kw))
+    K = 4 if quick else 8
     for op, fn in ((0, "add_n"), (1, "sub_n")):
         for n in range(1, K + 1):
             for al in range(4):
-                qs.append(Query("mpn_%s.n%d.alias%d" % (fn, n, al), "C03_mpn_aors_n.c", ["mpn/generic/%s.c" % fn],
-                                {"N": n, "ALIAS": al, "OP": op}, unwind=n + 2, funcs=["mpn/generic/%s.c:mpn_%s" % (fn, fn)], timeout=120))
+                add("mpn_%s.n%d.alias%d" % (fn, n, al), "C03_mpn_aors_n.c", [G + fn + ".c"], {"N": n, "ALIAS": al, "OP": op}, n + 2, [G + "%s.c:mpn_%s" % (fn, fn)])
+    K = 4 if quick else 6
+    for op, fn in ((0, "add"), (1, "sub")):
+        for un in range(1, K + 1):
+            for vn in range(1, un + 1):
+                for al in (0, 1) + ((2,) if un == vn else ()):
+                    add("mpn_%s.un%d.vn%d.alias%d" % (fn, un, vn, al), "C03_mpn_aors.c", [G + fn + ".c", G + fn + "_n.c"],
+                        {"UN": un, "VN": vn, "ALIAS": al, "OP": op}, un + 2, [G + "%s.c:mpn_%s" % (fn, fn), "gmp-h.in:__GMPN_AORS"])
+    K = 4 if quick else 8
+    one = [(0, "add_1", [G + "add_1.c"]), (1, "sub_1", [G + "sub_1.c"]), (2, "neg", [G + "neg_n.c", G + "com_n.c"]), (3, "com_n", [G + "com_n.c"]),
+           (4, "copyi", [G + "copyi.c"]), (5, "copyd", [G + "copyd.c"]), (6, "zero", [G + "zero.c"]), (7, "cmp", [G + "cmp.c"]), (8, "zero_p", [G + "zero_p.c"])]
+    for fn, nm, units in one:
+        for n in range(1, K + 1):
+            als = (0, 1) if fn <= 3 else (0, 1, 2) if fn in (4, 5) else (0,)
+            for al in als:
+                add("mpn_%s.n%d.alias%d" % (nm, n, al), "C03_mpn_1.c", units, {"N": n, "FN": fn, "ALIAS": al}, 2 * n + 6, [units[0] + ":mpn_" + nm])
+    K = 4 if quick else 6
+    for d, nm in ((0, "lshift"), (1, "rshift")):
+        for n in range(1, K + 1):
+            offs = (99, 0, 1, 2) if d == 0 else (99, 0, -1, -2)
+            for off in offs:
+                add("mpn_%s.n%d.off%s" % (nm, n, off), "C03_mpn_shift.c", [G + nm + ".c"], {"N": n, "DIR": d, "OFF": "(%d)" % off}, n + 10, [G + nm + ".c:mpn_" + nm])
+    K = 2 if quick else 4
+    for fn, nm in ((0, "addadd_n"), (1, "addsub_n"), (2, "subadd_n"), (3, "sumdiff_n"), (4, "nsumdiff_n")):
+        for n in range(1, K + 1):
+            als = range(8) if fn <= 2 else range(6)
+            for al in als:
+                units = [G + nm + ".c", G + "add_n.c", G + "sub_n.c", G + "mul_1.c", G + "neg_n.c", G + "com_n.c", "memory.c", G + "copyi.c"]
+                add("mpn_%s.n%d.alias%d" % (nm, n, al), "C03_mpn_multi.c", units, {"N": n, "FN": fn, "ALIAS": al}, n + 2, [G + nm + ".c:mpn_" + nm])
+    # mpz layer
+    K = 2 if quick else 4
+    au = [G + "add_n.c", G + "sub_n.c", G + "cmp.c", G + "add.c", G + "sub.c", G + "add_1.c", G + "sub_1.c", G + "copyi.c"] + MPZ_BASE
+    for op, nm in ((0, "add"), (1, "sub")):
+        for su in range(-K, K + 1):
+            for sv in range(-K, K + 1):
+                for al in range(5):
+                    if al >= 3 and sv != su:
+                        continue
+                    need = max(abs(su), abs(sv)) + 1
+                    aws = sorted(set([1, need])) if al in (0, 3) else [0]
+                    if not quick and al in (0, 3):
+                        aws = sorted(set([1, max(1, need - 1), need]))
+                    for aw in aws:
+                        add("mpz_%s.su%d.sv%d.alias%d.aw%d" % (nm, su, sv, al, aw), "C03_mpz_aors.c", ["mpz/%s.c" % nm] + au,
+                            {"SU": "(%d)" % su, "SV": "(%d)" % sv, "ALIAS": al, "AW": max(1, aw), "OP": op}, max(abs(su), abs(sv)) + 4,
+                            ["mpz/aors.h:mpz_" + nm], timeout=300)
+    K = 2 if quick else 4
+    for fn, nm in ((0, "add_ui"), (1, "sub_ui"), (2, "ui_sub")):
+        for su in range(-K, K + 1):
+            for al in (0, 1):
+                for aw in (sorted(set([1, abs(su) + 1])) if al == 0 else [0]):
+                    add("mpz_%s.su%d.alias%d.aw%d" % (nm, su, al, aw), "C03_mpz_ui.c", ["mpz/%s.c" % nm, "mpz/add.c", "mpz/sub.c"] + au,
+                        {"SU": "(%d)" % su, "FN": fn, "ALIAS": al, "AW": max(1, aw)}, abs(su) + 5, ["mpz/%s.c:mpz_%s" % (nm, nm)])
+    K = 3 if quick else 4
+    for fn, nm, un in ((0, "neg", ["mpz/neg.c", "mpz/set.c"]), (1, "abs", ["mpz/abs.c", "mpz/set.c"]), (2, "set", ["mpz/set.c"]), (4, "mul_2exp", ["mpz/mul_2exp.c", G + "lshift.c", G + "copyd.c", G + "zero.c"])):
+        for su in range(-K, K + 1):
+            for al in (0, 1):
+                for cnt in ((0, 1, 63, 64, 65, 127, 128, 191) if fn == 4 else (0,)):
+                    lc = cnt // 64
+                    need = abs(su) + lc + 1
+                    for aw in (sorted(set([1, need])) if al == 0 else [0]):
+                        add("mpz_%s.su%d.cnt%d.alias%d.aw%d" % (nm, su, cnt, al, aw), "C03_mpz_misc.c", un + au, {"SU": "(%d)" % su, "FN": fn, "ALIAS": al, "AW": max(1, aw), "CNT": cnt},
+                            abs(su) + 6 + lc, ["mpz/%s.c:mpz_%s" % (nm, nm)])
+    for su in range(-2, 3):
+        for sw in range(-2, 3):
+            add("mpz_swap.su%d.sw%d" % (su, sw), "C03_mpz_misc.c", ["mpz/swap.c"] + au, {"SU": "(%d)" % su, "SW": "(%d)" % sw, "FN": 3, "ALIAS": 0, "AW": max(1, abs(sw))}, 6, ["mpz/swap.c:mpz_swap"])
     return qs
+
 MANIFEST = {
- "text": "Bounded model checking of the real mpn/mpz add/sub/neg/shift/copy sources: for every enumerated concrete shape (length, alias pattern, sign pattern, allocation) the solver decides the assertion 'result == reference' over all 2^64 values of every limb; a counterexample is replayed natively against the real code before it is reported.",
- "note": "Bounds: see evidence (lengths up to 4 quick / 8 thorough). Trusted: CBMC C semantics, the inline-asm translation (validated each run), the reference oracles in harness/vh.h.",
+ "text": "Bounded model checking of the real mpn/mpz add/sub/neg/shift/copy sources: for every enumerated concrete shape (length, alias/overlap pattern, sign pattern, destination allocation) the solver decides 'result == reference' over all 2^64 values of every limb, the symbolic shift count and the symbolic ui operand; a counterexample is replayed natively against the real code before it is reported.",
+ "note": "Bounds: mpn lengths <= 4 (quick) / 6-8 (thorough); mpz operand sizes <= 2 (quick) / 4 (thorough) limbs, every sign pair, alias pattern and minimal destination allocation. Outside: longer operands; the four *_err{1,2}_n assembly units are covered under C14. Trusted: CBMC C semantics, inline-asm translation (validated each run), two's-complement reference oracles in harness/vh.h.",
 }
